@@ -28,7 +28,8 @@ type c11Pin struct {
 	Docs    []string
 	// documents of a pin need not be valid for the Src reading (e.g. a required member with a default
 	// left out, which CUE accepts): the schema language's own validator decides, as for every document
-	Text map[string]string // hand-written schema text per format (instead of rendering Sexp)
+	Text  map[string]string // hand-written schema text per format (instead of rendering Sexp)
+	Typed bool              // also run the JSON Schema / OpenAPI rendering with constants in the typed spelling
 }
 
 var c11Pins = []c11Pin{
@@ -505,6 +506,14 @@ func init() {
 					for _, dt := range p.Docs {
 						docs[c.ID] = append(docs[c.ID], mustJV(dt))
 					}
+					if p.Typed && p.Text[f] == "" {
+						// the same term with constants spelled `{"type": …, "const": v}` (c11_round4.go)
+						if ct := c11AddTyped(lab, d, f); ct != nil {
+							cases = append(cases, ct)
+							pinOf[ct.ID] = p.Name + "/typed"
+							docs[ct.ID] = append(docs[ct.ID], docs[c.ID]...)
+						}
+					}
 				}
 			}
 		}
@@ -525,6 +534,12 @@ func init() {
 				if strings.TrimSpace(dt) != "" {
 					docs[c.ID] = append(docs[c.ID], mustJV(dt))
 				}
+			}
+			// and in the typed spelling of constants (a failure found on a `…/typed` case replays there)
+			if ct := c11AddTyped(lab, d, lines[0]); ct != nil {
+				cases = append(cases, ct)
+				pinOf[ct.ID] = "replay/typed"
+				docs[ct.ID] = append(docs[ct.ID], docs[c.ID]...)
 			}
 		}
 		// members pinned to enum members (constant references; CUE only): generated schema text
@@ -547,6 +562,45 @@ func init() {
 			}
 			for k, v := range dg.tags {
 				dhist[k] += v
+			}
+		}
+		// collections reached through named aliases + integers no float64 holds exactly (c11_round4.go)
+		for i, nal := 0, argInt(args, "aliased", 0); i < nal; i++ {
+			d, big := c11GenRound4(seed, i)
+			for _, f := range labFormats {
+				if only, ok := args["format"]; ok && only != f {
+					continue
+				}
+				if big && f == "openapi" {
+					continue // kin-openapi reads every number as float64: recorded under C10/C12, pinned here (bigint-*)
+				}
+				var c *LabCase
+				if i%2 == 1 {
+					c = c11AddTyped(lab, d, f) // constants in the typed spelling
+				}
+				if c == nil {
+					c = lab.AddCase(d, f)
+				} else {
+					hist["const.typed-spelling"]++
+				}
+				cases = append(cases, c)
+				pinOf[c.ID] = fmt.Sprintf("aliased%d", i)
+				if c.Defs == nil {
+					continue
+				}
+				c.Defs.walkTags(func(t string) { hist[t]++ })
+				hist["alias-collection"]++
+				if big {
+					hist["bigint"]++
+				}
+				dg := newDocGen(c.Defs, newRng(seed*7919+uint64(i)*53+23), defaultDocOpts())
+				docs[c.ID] = append(docs[c.ID], c11RichDoc(c.Defs, dg, false), c11RichDoc(c.Defs, dg, true))
+				for k := 2; k < ndocs; k++ {
+					docs[c.ID] = append(docs[c.ID], c11LevelKeys(c.Defs, srcRef(c.Defs.Root), dg.validDoc(), 0, 32))
+				}
+				for k, v := range dg.tags {
+					dhist[k] += v
+				}
 			}
 		}
 		if args["n"] != "0" {
@@ -732,7 +786,11 @@ func init() {
 					pyOut, pyOK = got, true
 					if p, xo, y, diff := c01Diff(d, got, "$"); diff {
 						_, present := c11Lookup(d, p)
-						verdict = fmt.Sprintf("FAIL py-reenc-differs class=%s at=%s %s path=%s orig=%s got=%s", c11Class(xo, y, present), c11At(c.Defs, d, p), info, p, c11Short(xo), c11Short(y))
+						cls := c11Class(xo, y, present)
+						if decl := c11AlteredDefault(c.Defs, d, p, y); decl != "" && cls == "absent-member-emitted" {
+							cls = "absent-member-emitted-with-altered-default declared=" + decl
+						}
+						verdict = fmt.Sprintf("FAIL py-reenc-differs class=%s at=%s %s path=%s orig=%s got=%s", cls, c11At(c.Defs, d, p), info, p, c11Short(xo), c11Short(y))
 					} else if p, bad := c11AddedNull(d, got, "$"); bad {
 						verdict = fmt.Sprintf("FAIL py-reenc-differs class=null-member-added at=%s %s path=%s", c11At(c.Defs, d, p), info, p)
 					} else if err := rv.validate(got); err != nil {
@@ -780,6 +838,9 @@ func init() {
 				}
 				if verdictB != "ok" {
 					counts["B-fail"]++
+				}
+				if implB != "na" && c11EmptyBehindOptionalAlias(c.Defs, srcRef(c.Defs.Root), d, 32) {
+					implB += " go-model-limit=empty-collection-behind-optional-alias" // see c11_round4.go
 				}
 				fmt.Fprintf(out, "c11agree %s-py %s-go %s %s %s\t%s\t%s\n", c.ID, c.ID, c.ID, c.Defs.Root, d.sexp(), implB, verdictB)
 			}
